@@ -738,6 +738,7 @@ def lookup_visits_all(ctx: Ctx, py: PyProgram) -> None:
     if not storage:
         raise AnalysisError("MemoryBus.add_overlay: overlay storage not found")
     WRAP = {"tuple", "list", "reversed", "sorted", "iter"}
+    cur_defs: dict = {}
 
     def whole(e: ast.AST, depth: int = 0) -> str | None:
         """None if `e` denotes the whole storage, else what makes it a subset"""
@@ -753,6 +754,16 @@ def lookup_visits_all(ctx: Ctx, py: PyProgram) -> None:
                 if w:
                     return f"{h.name}() returns `{unparse(r)[:60]}` ({w})"
             return None if rets else f"{h.name}() returns nothing"
+        if isinstance(e, (ast.Tuple, ast.List)) and any(isinstance(x, ast.Starred) and whole(x.value, depth) is None for x in e.elts):
+            return None                                # (first, *all): every overlay is still visited (the order is another rule's business)
+        if isinstance(e, ast.Name) and cur_defs.get(e.id) and depth < 4:
+            for v in cur_defs[e.id]:
+                if not isinstance(v, ast.AST):
+                    raise AnalysisError(f"MemoryBus lookup iterates `{e.id}`, bound by unpacking: cannot tell whether that is every registered overlay")
+                w = whole(v, depth + 1)
+                if w:
+                    return w
+            return None
         if isinstance(e, ast.Subscript):
             if isinstance(e.slice, ast.Slice) and e.slice.lower is None and e.slice.upper is None and e.slice.step is None:
                 return whole(e.value, depth)          # xs[:] is a copy of the whole list
@@ -766,6 +777,8 @@ def lookup_visits_all(ctx: Ctx, py: PyProgram) -> None:
         loops = [l for l in ast.walk(fn) if isinstance(l, ast.For) and any(isinstance(c, ast.Call) and isinstance(c.func, ast.Attribute) and c.func.attr == "contains" for c in ast.walk(l))]
         if not loops:
             raise AnalysisError(f"MemoryBus.{q}: overlay lookup loop not found")
+        cur_defs.clear()
+        cur_defs.update(py_defs(fn))
         for l in loops:
             n += 1
             w = whole(l.iter)
